@@ -202,7 +202,7 @@ Section GniTie.
          gni_names gni_env0 gni_args params_get_next_imf
          gni_split gni_pre gni_cond gni_body gni_post
          String.eqb Ascii.eqb Bool.eqb fst snd nth_error andb negb orb].
-  Ltac ev1 := ev; repeat (progress oracle_rw; ev).
+  Ltac ev1 := ev; repeat (progress (cbn [Nat.eqb]; oracle_rw); ev).
   (* statement by statement: the continuation stays folded as [K rest fuel env] *)
   Ltac steps :=
     set (K := exec_list gni_prims);
@@ -292,6 +292,78 @@ Section GniTie.
         destruct (env_u p) as [u|] eqn:Eu; destruct (env_l p) as [l|] eqn:El;
           [destruct (n + 1 =? max_iters)%nat eqn:Es| | |];
           (eexists; split; [steps; reflexivity | ev; reflexivity]).
+    Qed.
+
+    Lemma gni_test : forall eo xo p n ci cf junk,
+      eval_truth gni_prims (gni_head eo xo p n ci cf junk) gni_cond = Ok ci.
+    Proof. intros. unfold gni_head. ev. reflexivity. Qed.
+
+    (* the while loop against gni_loop, for every fuel: one body execution per unit of model fuel *)
+    Lemma gni_while : forall fb eo xo f n p junk,
+      let w := while_loop (fun e' => eval_truth gni_prims e' gni_cond)
+                          (fun e' => exec gni_prims gni_body fb e') f
+                          (gni_head eo xo p n true true junk) in
+      match loopg f n p with
+      | Imf p' fl n' => exists junk', w = Normal (gni_head eo xo p' n' false fl junk')
+      | ConvergeError _ => w = Raise "EMDSiftCovergeError"
+      | GniOutOfFuel => w = OutOfFuel
+      end.
+    Proof.
+      intros fb eo xo. induction f as [|f IH]; intros n p junk w; subst w.
+      - cbn [gni_loop]. rewrite while_loop_unfold, gni_test. reflexivity.
+      - cbn [gni_loop]. rewrite while_loop_unfold, gni_test.
+        pose proof (gni_body_step fb eo xo p n junk) as Hs. cbv zeta in Hs.
+        destruct (negb (is_fixed method) && (max_iters <? n)%nat).
+        + rewrite Hs. reflexivity.
+        + destruct Hs as (e' & He' & Hs).
+          replace (S n) with (n + 1)%nat by lia.
+          assert (Hw : forall k,
+                    match exec gni_prims gni_body fb (gni_head eo xo p n true true junk) with
+                    | Normal e1 | Continue e1 => k e1
+                    | o => o
+                    end = k e').
+          { intros k. destruct (exec gni_prims gni_body fb (gni_head eo xo p n true true junk));
+              cbn [iter_env] in He'; try discriminate; inversion He'; reflexivity. }
+          rewrite Hw. clear Hw He'.
+          destruct (envs_of p) as [[u l]|].
+          * destruct (sfires (n + 1)%nat p (vsub p (vavg u l)) u l).
+            -- rewrite Hs. rewrite while_loop_unfold, gni_test. eexists. reflexivity.
+            -- rewrite Hs. apply IH.
+          * rewrite Hs. rewrite while_loop_unfold, gni_test. eexists. reflexivity.
+    Qed.
+
+    Lemma gni_prefix : forall f eo xo,
+      exists eo' junk,
+        exec_list gni_prims gni_pre f (gni_env0 method max_iters use_energy X eo xo) =
+        Normal (gni_head eo' xo X 0 true true junk).
+    Proof.
+      intros f eo xo.
+      destruct eo; eexists; exists (fun _ => None); unfold gni_head; ev; steps; reflexivity.
+    Qed.
+
+    Lemma gni_suffix : forall f eo xo p n fl junk,
+      exec_list gni_prims gni_post f (gni_head eo xo p n false fl junk) =
+      Return (VList [VSig p; VBool (fl && negb (use_energy && energy_fires X (vsub X p)))]).
+    Proof.
+      intros f eo xo p n fl junk. unfold gni_head.
+      destruct use_energy; [destruct (energy_fires X (vsub X p)) eqn:Ee|]; destruct fl;
+        ev; steps; reflexivity.
+    Qed.
+
+    (* THE TIE, for every loop bound: the translated body of get_next_imf, run with fuel f, does what
+       the hand-written model does with loop bound f *)
+    Theorem skeleton_get_next_imf_exact : forall f eo xo,
+      exec gni_prims prog_get_next_imf f (gni_env0 method max_iters use_energy X eo xo) =
+      gni_render (gni_gen_fuel f).
+    Proof.
+      intros f eo xo. rewrite (exec_split _ _ _ _ _ _ _ _ _ gni_split_ok).
+      destruct (gni_prefix f eo xo) as (eo' & junk & Hpre). rewrite Hpre.
+      cbn [exec]. unfold gni_gen_fuel.
+      pose proof (gni_while f eo' xo f 0 X junk) as Hw. cbv zeta in Hw.
+      destruct (loopg f 0 X) as [p fl n| n |].
+      - destruct Hw as (junk' & Hw). rewrite Hw. rewrite gni_suffix. reflexivity.
+      - rewrite Hw. reflexivity.
+      - rewrite Hw. reflexivity.
     Qed.
   End Fixed.
 End GniTie.
